@@ -256,7 +256,7 @@ class PossibleMatch:
 
     @staticmethod
     def react_open(match):
-        def react(match, token, atom):
+        def react(match, token, atom, sibling_tokens):
             def id_open_atom(substructure, match, open_atom):
                 open_atom_idx = None
                 for idx, atom_idx in enumerate(substructure):
@@ -274,7 +274,7 @@ class PossibleMatch:
                             found_bd.append(bd)
                 return found_bd
 
-            def get_reaction_prob(open_bond, bd, token):
+            def get_reaction_prob(open_bond, bd, token, sibling_tokens):
                 if open_bond.transitions is not None:
                     reaction_prob = open_bond.transitions[bd.descriptor_num]
                     reaction_prob /= open_bond.weight
@@ -284,7 +284,21 @@ class PossibleMatch:
                     for bond_descriptors_weight in token.bond_descriptors:
                         if bond_descriptors_weight.is_compatible(open_bond):
                             element_weight += bond_descriptors_weight.weight
-                    reaction_prob /= element_weight
+                    if element_weight > 0:
+                        reaction_prob /= element_weight
+                    else:
+                        # All compatible bond descriptors of this token have weight 0.
+                        # The generation picks such a bond descriptor only if every compatible bond descriptor
+                        # of all candidate tokens has weight 0, and then uniformly ('trick to allow 0 weights').
+                        candidates = []
+                        for sibling in sibling_tokens:
+                            for sibling_bd in sibling.bond_descriptors:
+                                if sibling_bd.is_compatible(open_bond):
+                                    candidates.append(sibling_bd)
+                        if any(candidate.weight > 0 for candidate in candidates):
+                            reaction_prob = 0.0
+                        else:
+                            reaction_prob = 1.0 / len(candidates)
                 return reaction_prob
 
             params = Chem.SmilesParserParams()
@@ -300,7 +314,9 @@ class PossibleMatch:
                         open_atom_idx, atom.bond_descriptor, token.bond_descriptors
                     )
                     for bd in possible_bd:
-                        reaction_prob = get_reaction_prob(atom.bond_descriptor, bd, token)
+                        reaction_prob = get_reaction_prob(
+                            atom.bond_descriptor, bd, token, sibling_tokens
+                        )
                         if reaction_prob > 0:
                             new_match = match.copy(reaction_prob)
                             # Find new open bond that can react
@@ -338,7 +354,7 @@ class PossibleMatch:
                 pattern = Chem.MolFromSmiles(token.generate_smiles_fragment(), params.removeHs)
                 pattern_mw = rdDescriptors.HeavyAtomMolWt(pattern)
                 new_mol._element_weights[new_mol._active_element] += pattern_mw
-                token_mols.append((new_mol, token))
+                token_mols.append((new_mol, token, [token]))
                 new_mol._active_element += 1
 
             if isinstance(match._big.elements[match._active_element], Stochastic):
@@ -347,17 +363,21 @@ class PossibleMatch:
                     pattern = Chem.MolFromSmiles(token.generate_smiles_fragment(), params.removeHs)
                     pattern_mw = rdDescriptors.HeavyAtomMolWt(pattern)
                     new_mol._element_weights[new_mol._active_element] += pattern_mw
-                    token_mols.append((new_mol, token))
+                    token_mols.append(
+                        (new_mol, token, match._big.elements[match._active_element].repeat_tokens)
+                    )
 
                 for token in match._big.elements[match._active_element].end_tokens:
                     new_mol = match.copy(atom_prob)
                     pattern = Chem.MolFromSmiles(token.generate_smiles_fragment(), params.removeHs)
                     # Note that end tokens do not increase the molecular weight (for generation purposes)
-                    token_mols.append((new_mol, token))
+                    token_mols.append(
+                        (new_mol, token, match._big.elements[match._active_element].end_tokens)
+                    )
 
             # Handle the reaction
-            for mol, token in token_mols:
-                react_new_open, react_new_full = react(mol, token, atom)
+            for mol, token, sibling_tokens in token_mols:
+                react_new_open, react_new_full = react(mol, token, atom, sibling_tokens)
                 new_open += react_new_open
                 new_full += react_new_full
 
